@@ -122,8 +122,15 @@ class TestKey:
 
 
 @lru_cache(maxsize=1)
-def all_keys() -> list[TestKey]:
+def _all_raw() -> list[TestKey]:
     return [TestKey(d) for d in json.loads((VERIF / "fixtures" / "keys.json").read_text())]
+
+
+@lru_cache(maxsize=1)
+def all_keys() -> list[TestKey]:
+    """The ordinary fixtures (indexes into this list are used as key references).  Fixtures with particular OCTET PATTERNS
+    (`rsa_keys_topclear`, `ec_keys_x04`) are appended to the file, flagged, and reached only through their own accessors."""
+    return [k for k in _all_raw() if not k.raw.get("topclear") and not k.raw.get("x04")]
 
 
 def rsa_keys(bits: int | None = None, e: int | None = None) -> list[TestKey]:
@@ -134,7 +141,7 @@ def rsa_keys_topclear() -> list[TestKey]:
     """RSA keys whose modulus has its most significant octet < 0x80 (1023 / 2047 / 3070 bits in 128 / 256 / 384 octets): the
     modulus LENGTH in octets (what /repo calls the key size, and what the PKCS#1 block is padded to) is not bit_length // 8.
     `bits` of these fixtures is 8 * octets, i.e. the value a configuration has to state."""
-    return [k for k in all_keys() if k.kind == "rsa" and k.raw.get("topclear")]
+    return [k for k in _all_raw() if k.kind == "rsa" and k.raw.get("topclear")]
 
 
 def ec_keys(curve: str | None = None) -> list[TestKey]:
@@ -145,7 +152,7 @@ def ec_keys_x04(curve: str | None = None) -> list[TestKey]:
     """EC keys whose X coordinate begins with the octet 0x04 (1 key in 256): the bare RFC 6605 form x || y of such a key
     starts like a SEC 1 uncompressed point — code that recognises the prefixed form by its first octet instead of by the
     length of the key misreads it."""
-    return [k for k in all_keys() if k.kind == "ec" and k.raw.get("x04") and (curve is None or k.curve == curve)]
+    return [k for k in _all_raw() if k.kind == "ec" and k.raw.get("x04") and (curve is None or k.curve == curve)]
 
 
 def make_zsk(tk: TestKey, alg: int, ident: str, ttl: int = 172800, flags: int = 256) -> Any:
